@@ -319,4 +319,208 @@ theorem scanQuoted_error (len start : Nat) : ∀ (cs : List (Nat × Nat)) (b : B
       · cases h
       · split at h <;> exact ih _ _ h
 
+theorem charIndicesFrom_ascii (pos b0 : Nat) (rest : List Nat) (h : b0 < 128) :
+    charIndicesFrom pos (b0 :: rest) = (pos, b0) :: charIndicesFrom (pos + 1) rest := by
+  conv => lhs; unfold charIndicesFrom
+  simp [h]
+
+/-! ## well-formed UTF-8: the decoded characters tile the source -/
+
+def Chain (src : List Nat) : Nat → List (Nat × Nat) → Prop
+  | lo, [] => lo = src.length
+  | lo, (p, c) :: rest =>
+    p = lo ∧ isCharBoundary src p = true ∧ ∃ w, 1 ≤ w ∧ (c < 128 → w = 1) ∧ Chain src (p + w) rest
+
+theorem boundary_len (src : List Nat) : isCharBoundary src src.length = true := by
+  unfold isCharBoundary
+  cases h : src.length with
+  | zero => rfl
+  | succ n =>
+    have : src[n + 1]? = none := by
+      apply List.getElem?_eq_none_iff.mpr; omega
+    simp [this]
+
+theorem boundary_lead (pre : List Nat) (b : Nat) (rest : List Nat) (hb : isCont b = false) :
+    isCharBoundary (pre ++ b :: rest) pre.length = true := by
+  unfold isCharBoundary
+  cases h : pre.length with
+  | zero => rfl
+  | succ n =>
+    have : (pre ++ b :: rest)[n + 1]? = some b := by
+      rw [← h]; simp
+    simp [this, hb]
+
+theorem not_cont_of_lt {b : Nat} (h : b < 128) : isCont b = false := by simp [isCont]; omega
+theorem not_cont_of_ge {b : Nat} (h : 192 ≤ b) : isCont b = false := by simp [isCont]; omega
+
+theorem chain_charIndicesFrom (pos : Nat) (suf : List Nat) :
+    ∀ (pre : List Nat), pre.length = pos → wfUtf8 suf = true →
+    Chain (pre ++ suf) pos (charIndicesFrom pos suf) := by
+  fun_induction charIndicesFrom pos suf with
+  | case1 pos =>
+    intro pre hp _; simp [Chain, hp]
+  | case2 pos b0 rest h ih =>
+    intro pre hp hw
+    unfold wfUtf8 at hw; simp only [h, if_true] at hw
+    refine ⟨rfl, ?_, 1, Nat.le_refl _, fun _ => rfl, ?_⟩
+    · rw [← hp]; exact boundary_lead pre b0 rest (not_cont_of_lt h)
+    · have := ih (pre ++ [b0]) (by simp [hp]) hw
+      simpa [List.append_assoc] using this
+  | case3 pos b0 h1 h2 b1 r ih =>
+    intro pre hp hw
+    have h3 : ¬ b0 < 192 := by
+      intro h; (unfold wfUtf8 at hw; simp [h1, h] at hw)
+    unfold wfUtf8 at hw; simp only [h1, h2, h3, if_true, if_false, Bool.and_eq_true, decide_eq_true_eq] at hw
+    refine ⟨rfl, ?_, 2, by omega, fun hc => by omega, ?_⟩
+    · rw [← hp]; exact boundary_lead pre b0 _ (not_cont_of_ge (by omega))
+    · have := ih (pre ++ [b0, b1]) (by simp [hp]) hw.2
+      simpa [List.append_assoc] using this
+  | case4 pos b0 h1 h2 =>
+    intro pre hp hw
+    by_cases h3' : b0 < 192
+    · (unfold wfUtf8 at hw; simp [h1, h3'] at hw)
+    · (unfold wfUtf8 at hw; simp [h1, h2, h3'] at hw)
+  | case5 pos b0 h1 h2 h3 b1 b2 r ih =>
+    intro pre hp hw
+    have h4 : ¬ b0 < 192 := by omega
+    unfold wfUtf8 at hw; simp only [h1, h2, h3, h4, if_true, if_false, Bool.and_eq_true, decide_eq_true_eq] at hw
+    refine ⟨rfl, ?_, 3, by omega, fun hc => by omega, ?_⟩
+    · rw [← hp]; exact boundary_lead pre b0 _ (not_cont_of_ge (by omega))
+    · have := ih (pre ++ [b0, b1, b2]) (by simp [hp]) hw.2
+      simpa [List.append_assoc] using this
+  | case6 pos b0 rest h1 h2 h3 hne =>
+    intro pre hp hw
+    have h4 : ¬ b0 < 192 := by omega
+    exfalso
+    cases rest with
+    | nil => (unfold wfUtf8 at hw; simp [h1, h2, h3, h4] at hw)
+    | cons b1 r =>
+      cases r with
+      | nil => (unfold wfUtf8 at hw; simp [h1, h2, h3, h4] at hw)
+      | cons b2 r2 => exact hne b1 b2 r2 rfl
+  | case7 pos b0 h1 h2 h3 b1 b2 b3 r ih =>
+    intro pre hp hw
+    have h4 : ¬ b0 < 192 := by omega
+    have h5 : b0 < 248 := by
+      apply Classical.byContradiction; intro h; (unfold wfUtf8 at hw; simp [h1, h2, h3, h4, h] at hw)
+    unfold wfUtf8 at hw; simp only [h1, h2, h3, h4, h5, if_true, if_false, Bool.and_eq_true, decide_eq_true_eq] at hw
+    refine ⟨rfl, ?_, 4, by omega, fun hc => by omega, ?_⟩
+    · rw [← hp]; exact boundary_lead pre b0 _ (not_cont_of_ge (by omega))
+    · have := ih (pre ++ [b0, b1, b2, b3]) (by simp [hp]) hw.2
+      simpa [List.append_assoc] using this
+  | case8 pos b0 rest h1 h2 h3 hne =>
+    intro pre hp hw
+    have h4 : ¬ b0 < 192 := by omega
+    exfalso
+    by_cases h5 : b0 < 248
+    · cases rest with
+      | nil => (unfold wfUtf8 at hw; simp [h1, h2, h3, h4, h5] at hw)
+      | cons b1 r =>
+        cases r with
+        | nil => (unfold wfUtf8 at hw; simp [h1, h2, h3, h4, h5] at hw)
+        | cons b2 r2 =>
+          cases r2 with
+          | nil => (unfold wfUtf8 at hw; simp [h1, h2, h3, h4, h5] at hw)
+          | cons b3 r3 => exact hne b1 b2 b3 r3 rfl
+    · (unfold wfUtf8 at hw; simp [h1, h2, h3, h4, h5] at hw)
+
+/-- what a chain starting at `lo` says about `lo` itself -/
+theorem chain_start {src : List Nat} {lo : Nat} {cs : List (Nat × Nat)} (h : Chain src lo cs) :
+    lo ≤ src.length ∧ isCharBoundary src lo = true ∧ nextIndex src.length cs = lo := by
+  induction cs generalizing lo with
+  | nil => simp only [Chain] at h; subst h; exact ⟨Nat.le_refl _, boundary_len src, rfl⟩
+  | cons x rest ih =>
+    obtain ⟨p, c⟩ := x
+    simp only [Chain] at h
+    obtain ⟨hp, hb, w, hw, _, hr⟩ := h
+    subst hp
+    have := ih hr
+    exact ⟨by omega, hb, rfl⟩
+
+/-- a pending backslash at `bs`: one-byte character on boundaries, before the unread input -/
+def StB (src : List Nat) (lo : Nat) : StrSt → Prop
+  | .normal => True
+  | .esc bs => isCharBoundary src bs = true ∧ isCharBoundary src (bs + 1) = true ∧ bs + 1 ≤ lo
+  | .uni bs => isCharBoundary src bs = true ∧ isCharBoundary src (bs + 1) = true ∧ bs + 1 ≤ lo
+  | .hex bs _ _ => isCharBoundary src bs = true ∧ isCharBoundary src (bs + 1) = true ∧ bs + 1 ≤ lo
+
+theorem scanString_label_wf (src : List Nat) (start : Nat)
+    (hs0 : isCharBoundary src start = true) (hs1 : isCharBoundary src (start + 1) = true)
+    (hs2 : start + 1 ≤ src.length) :
+    ∀ (cs : List (Nat × Nat)) (st : StrSt) (lo : Nat) (e : LexErr),
+    Chain src lo cs → StB src lo st → scanString src.length start st cs = .error e →
+    e.splitsChar = false → WF src e.label := by
+  intro cs
+  induction cs with
+  | nil =>
+    intro st lo e hc hst h hcl
+    have hl := chain_start hc
+    cases st <;> simp [scanString] at h <;> subst h <;> simp only [StB] at hst <;>
+      simp only [LexErr.label, WF] <;> (first | exact ⟨by omega, by omega, hs0, hs1⟩ | exact ⟨by omega, by omega, hst.1, hst.2.1⟩)
+  | cons x rest ih =>
+    intro st lo e hc hst h hcl
+    obtain ⟨p, c⟩ := x
+    simp only [Chain] at hc
+    obtain ⟨hp, hb, w, hw, hw1, hr⟩ := hc
+    subst hp
+    have hn := chain_start hr
+    cases st with
+    | normal =>
+      simp only [scanString] at h
+      split at h
+      · cases h
+      · split at h
+        · rename_i hc92
+          have : w = 1 := hw1 (by omega)
+          subst this
+          exact ih _ _ _ hr (by simp only [StB]; exact ⟨hb, hn.2.1, Nat.le_refl _⟩) h hcl
+        · exact ih _ _ _ hr (by simp [StB]) h hcl
+    | esc bs =>
+      simp only [scanString] at h
+      simp only [StB] at hst
+      split at h
+      · exact ih _ _ _ hr (by simp [StB]) h hcl
+      · split at h
+        · exact ih _ _ _ hr (by simp only [StB]; exact ⟨hst.1, hst.2.1, by omega⟩) h hcl
+        · cases h
+          simp only [LexErr.splitsChar, decide_eq_false_iff_not, Nat.not_le] at hcl
+          have : w = 1 := hw1 hcl
+          subst this
+          exact ⟨by simp [LexErr.label], by simp only [LexErr.label]; omega, hb, hn.2.1⟩
+    | uni bs =>
+      simp only [scanString] at h
+      simp only [StB] at hst
+      split at h
+      · exact ih _ _ _ hr (by simp only [StB]; exact ⟨hst.1, hst.2.1, by omega⟩) h hcl
+      · cases h
+        simp only [LexErr.splitsChar, decide_eq_false_iff_not, Nat.not_le] at hcl
+        have : w = 1 := hw1 hcl
+        subst this
+        exact ⟨by simp [LexErr.label], by simp only [LexErr.label]; omega, hb, hn.2.1⟩
+    | hex bs n v =>
+      simp only [scanString] at h
+      simp only [StB] at hst
+      split at h
+      · split at h
+        · cases h
+          refine ⟨?_, ?_, hst.1, ?_⟩ <;> simp only [LexErr.label] <;> rw [hn.2.2]
+          · omega
+          · exact hn.1
+          · exact hn.2.1
+        · split at h
+          · exact ih _ _ _ hr (by simp [StB]) h hcl
+          · cases h
+            refine ⟨?_, ?_, hst.1, ?_⟩ <;> simp only [LexErr.label] <;> rw [hn.2.2]
+            · omega
+            · exact hn.1
+            · exact hn.2.1
+      · split at h
+        · exact ih _ _ _ hr (by simp only [StB]; exact ⟨hst.1, hst.2.1, by omega⟩) h hcl
+        · cases h
+          simp only [LexErr.splitsChar, decide_eq_false_iff_not, Nat.not_le] at hcl
+          have : w = 1 := hw1 hcl
+          subst this
+          exact ⟨by simp [LexErr.label], by simp only [LexErr.label]; omega, hb, hn.2.1⟩
+
+
 end Spans
